@@ -2,6 +2,7 @@ package main
 
 import (
 	"fmt"
+	"go/token"
 	"go/types"
 	"strings"
 
@@ -88,7 +89,7 @@ func invokeEvent(m map[*types.Func]string) func(in ssa.Instruction) string {
 func c07(c *ctx) {
 	r := c.r
 	r.Explain = "Static decision of the roll-back discipline: (R1) path rule over ApplyTransactions' execution loop — on the failure edge of ApplyTransaction the complete undo set (AddFailed, ResetCaches, events.Reset, slash-tracker restore, SetStore(previous)) runs and Flush/Add do not, on the success edge Flush ok + SetStore + Add; the restored values are the ones read before the wrap; " +
-		"(R2) every TxnWrap is undone by a SetStore on every exit; (R3) ResetCaches assigns every cache field; (R4) proposal/commit entry points reset speculative state on every exit and Store.Commit resets on every error exit; (R5) no state-writing error result is dropped in fsm; (R6) the proposer's oversize probing is rolled back in the caches as well as in the store; (R7) the slash-tracker snapshot restored on failure is a deep copy."
+		"(R2) every TxnWrap is undone by a SetStore on every exit; (R3) ResetCaches assigns every cache field; (R4) proposal/commit entry points reset speculative state on every exit and Store.Commit resets on every error exit; (R5) no state-writing error result is dropped in fsm; (R6) the proposer's oversize probing is rolled back in the caches as well as in the store; (R7) the slash-tracker snapshot restored on failure is a deep copy; (R8) the proposal vote configuration set for a proposal is undone on every exit."
 	r.NotCovered = []string{"equality of the post-state with 'the block without the failed transactions' (semantic)", "process-wide caches (blockCache.Add before commit; argued harmless, F9)", "roll-back inside plugin processes"}
 	r.Trusted = []string{"store.Txn discards its write set when dropped without Flush (C10 territory)"}
 
@@ -245,6 +246,138 @@ func c07(c *ctx) {
 	if clone := c.fn("fsm.(*SlashTracker).Clone"); clone != nil {
 		c.deepCopyCheck("R7", clone)
 	}
+
+	// ------------------------------------------------------------------ R8
+	c.ruleConsensusModeReset("R8")
+}
+
+// ruleConsensusModeReset (C07.R8): SetFSMInConsensusModeForProposals switches both state machines to the strict proposal
+// vote configuration and hands back the function that undoes it; FSM.Reset does not touch that field. A caller that can
+// return without having called (or deferred) the undo function leaves the working state machines in consensus mode after a
+// rejected proposal: the next committed block with a governance transaction then fails on this node only.
+func (c *ctx) ruleConsensusModeReset(R string) {
+	r := c.r
+	r.Rule(R, "PAIR", "consensus mode is undone on every exit: in every function that calls SetFSMInConsensusModeForProposals, each path from the call to a return passes a call or a defer of the reset function it returned", 5)
+	set := c.fn("controller.(*Controller).SetFSMInConsensusModeForProposals")
+	if set == nil {
+		return
+	}
+	n := 0
+	for _, f := range c.p.Funcs {
+		if !inCanopyRaw(f) || isTestFile(c.p, f.Pos()) {
+			continue
+		}
+		for _, b := range f.Blocks {
+			for i, in := range b.Instrs {
+				call, ok := in.(*ssa.Call)
+				if !ok || !callIs(call.Common(), set) {
+					continue
+				}
+				n++
+				name := fnName(enclosing(f))
+				if call.Referrers() == nil || len(*call.Referrers()) == 0 {
+					r.Bad(fmt.Sprintf("%s/%s/reset", R, name), c.p.Pos(call.Pos()), name+" discards the reset function SetFSMInConsensusModeForProposals returned: the state machines stay in consensus mode")
+					continue
+				}
+				isReset := func(x ssa.Instruction) bool {
+					var cc *ssa.CallCommon
+					switch y := x.(type) {
+					case *ssa.Call:
+						cc = y.Common()
+					case *ssa.Defer:
+						cc = y.Common()
+					default:
+						return false
+					}
+					if cc.IsInvoke() {
+						return false
+					}
+					if sameFuncValue(cc.Value, call) {
+						return true
+					}
+					// a closure (called in place or deferred) that calls the reset function
+					if mc, ok := cc.Value.(*ssa.MakeClosure); ok {
+						if g, ok := mc.Fn.(*ssa.Function); ok {
+							found := false
+							for _, h := range withAnons(g) {
+								instrs(h, func(in2 ssa.Instruction) {
+									if c2 := callCommon(in2); c2 != nil && !c2.IsInvoke() && sameFuncValue(c2.Value, call) {
+										found = true
+									}
+								})
+							}
+							return found
+						}
+					}
+					return false
+				}
+				ret := returnAvoiding(b, i+1, isReset)
+				r.Check(ret == nil, fmt.Sprintf("%s/%s/reset", R, name), c.p.Pos(call.Pos()), "reset called or deferred on every path to a return", func() string {
+					if ret == nil {
+						return ""
+					}
+					return fmt.Sprintf("%s can return at %s without having called or deferred the reset function of SetFSMInConsensusModeForProposals: after that exit FSM and mempool FSM stay in consensus mode (REJECT_ALL / APPROVE_LIST), and FSM.Reset does not clear it", name, c.p.Pos(ret.Pos()))
+				}())
+			}
+		}
+	}
+	r.Analysed["consensus_mode_sites"] = n
+}
+
+// sameFuncValue: val is the function value `src` — directly, or read back from the local variable it was put in
+// (a variable captured by a closure lives in a cell; the closure sees it as a free variable).
+func sameFuncValue(val ssa.Value, src ssa.Value) bool {
+	if val == src {
+		return true
+	}
+	u, ok := val.(*ssa.UnOp)
+	if !ok || u.Op != token.MUL {
+		return false
+	}
+	cell := bindingOf(u.X)
+	a, ok := cell.(*ssa.Alloc)
+	if !ok || a.Referrers() == nil {
+		return false
+	}
+	stores, fromSrc := 0, 0
+	for _, ref := range *a.Referrers() {
+		if st, ok := ref.(*ssa.Store); ok && st.Addr == a {
+			stores++
+			if st.Val == src {
+				fromSrc++
+			}
+		}
+	}
+	return stores > 0 && stores == fromSrc
+}
+
+// returnAvoiding searches the control-flow graph from instruction index `from` of block b for a path to a Return that
+// passes no instruction for which stop holds; it returns that Return (nil if every path is stopped). Panics are not exits.
+func returnAvoiding(b *ssa.BasicBlock, from int, stop func(ssa.Instruction) bool) *ssa.Return {
+	seen := map[*ssa.BasicBlock]bool{}
+	var walk func(b *ssa.BasicBlock, from int) *ssa.Return
+	walk = func(b *ssa.BasicBlock, from int) *ssa.Return {
+		for i := from; i < len(b.Instrs); i++ {
+			in := b.Instrs[i]
+			if stop(in) {
+				return nil
+			}
+			if ret, ok := in.(*ssa.Return); ok {
+				return ret
+			}
+		}
+		for _, s := range b.Succs {
+			if seen[s] {
+				continue
+			}
+			seen[s] = true
+			if ret := walk(s, 0); ret != nil {
+				return ret
+			}
+		}
+		return nil
+	}
+	return walk(b, from)
 }
 
 // isRefType: a value through which the holder can observe later writes (map, slice, pointer, chan).
